@@ -21,6 +21,7 @@ type Script struct {
 	counter  int
 	Mode     string // "math" or "bv"
 	Lemma    bool   // lemma proof: umod/udiv are the real operations
+	Quant    int    // >0 while translating under a quantifier: axioms are emitted as global quantified axioms
 	env      *Env
 }
 
@@ -47,8 +48,26 @@ func NewScript(env *Env) *Script {
 		"(declare-fun shl (Int Int) Int)",
 		"(declare-fun shr (Int Int) Int)",
 		"(declare-fun rsqrt (Real) Real)",
+		"(declare-fun sidx (Slice Int) Int)",
+		"(declare-fun rootref (Int) Int)",
+		"(assert (forall ((x! Int)) (! (=> (> x! 0) (= (rootref x!) x!)) :pattern ((rootref x!)))))",
+		"(assert (= (rootref 0) 0))",
 	)
 	return s
+}
+
+// existedAt states that reference r denotes (part of) an object allocated before the allocation
+// counter had value alloc: interior references are judged by the object they are part of.
+func existedAt(r, alloc string) string {
+	return fmt.Sprintf("(and (> (rootref %s) 0) (< (rootref %s) %s))", r, r, alloc)
+}
+
+// sliceIdx returns the backing-array index of element i of slice s as a term built with the
+// uninterpreted symbol sidx (a robust quantifier trigger) together with its defining fact.
+func (s *Script) sliceIdx(sl, i string) (term string, fact string) {
+	term = fmt.Sprintf("(sidx %s %s)", sl, i)
+	fact = fmt.Sprintf("(= %s (+ (s-off %s) %s))", term, sl, i)
+	return
 }
 
 // divModDecls declares division/remainder by a non-constant divisor.  In function VCs they are
@@ -384,6 +403,8 @@ func (s *Script) compSort(key string) string {
 	switch ci.kind {
 	case "ghostmap":
 		return "(Array Int (Array Int Int))"
+	case "ghostset":
+		return "(Array Int (Array Int Bool))"
 	case "field", "cell", "ghost":
 		if ci.t == nil {
 			return "(Array Int Int)"
@@ -427,10 +448,12 @@ func (s *Script) mapComps(m *types.Map) (dom, val string) {
 	return
 }
 
-func (env *Env) regGhostComp(key string, t types.Type, isMap bool) {
+func (env *Env) regGhostComp(key string, t types.Type, special string) {
 	if _, ok := env.comps[key]; !ok {
-		if isMap {
+		if special == "intmap" {
 			env.comps[key] = compInfo{kind: "ghostmap"}
+		} else if special == "intset" {
+			env.comps[key] = compInfo{kind: "ghostset"}
 		} else {
 			env.comps[key] = compInfo{kind: "ghost", t: t}
 		}
@@ -455,7 +478,12 @@ func (s *Script) fldRef(t types.Type, i int, ref string) (term string, axioms []
 	inv := q("fldinv:" + typeName(t) + "." + st.Field(i).Name())
 	term = fmt.Sprintf("(%s %s)", f, ref)
 	id := s.typeID("fld:" + typeName(t) + "." + st.Field(i).Name())
+	if s.Quant > 0 {
+		s.declare("ax:"+f, fmt.Sprintf("(assert (forall ((x! Int)) (! (and (= (%s (%s x!)) x!) (< (%s x!) 0) (= (reftag (%s x!)) %d) (= (rootref (%s x!)) (rootref x!))) :pattern ((%s x!)))))", inv, f, f, f, id, f, f))
+		return term, nil
+	}
 	axioms = []string{
+		fmt.Sprintf("(= (rootref %s) (rootref %s))", term, ref),
 		fmt.Sprintf("(= (%s %s) %s)", inv, term, ref),
 		fmt.Sprintf("(< %s 0)", term),
 		fmt.Sprintf("(= (reftag %s) %d)", term, id),
@@ -473,7 +501,12 @@ func (s *Script) elemRef(t types.Type, arr, idx string) (term string, axioms []s
 	s.declare("tagfun", "(declare-fun reftag (Int) Int)")
 	term = fmt.Sprintf("(%s %s %s)", name, arr, idx)
 	id := s.typeID("elem:" + typeName(t))
+	if s.Quant > 0 {
+		s.declare("ax:"+name, fmt.Sprintf("(assert (forall ((a! Int) (i! Int)) (! (and (= (%s (%s a! i!)) a!) (= (%s (%s a! i!)) i!) (< (%s a! i!) 0) (= (reftag (%s a! i!)) %d) (= (rootref (%s a! i!)) a!)) :pattern ((%s a! i!)))))", ia, name, ii, name, name, name, id, name, name))
+		return term, nil
+	}
 	axioms = []string{
+		fmt.Sprintf("(= (rootref %s) %s)", term, arr),
 		fmt.Sprintf("(= (%s %s) %s)", ia, term, arr),
 		fmt.Sprintf("(= (%s %s) %s)", ii, term, idx),
 		fmt.Sprintf("(< %s 0)", term),
@@ -551,4 +584,32 @@ func sortedKeys(m map[string]bool) []string {
 	}
 	sort.Strings(ks)
 	return ks
+}
+
+
+// mapLen returns the cardinality term of a map domain (an (Array K Bool)) and its basic axioms.
+func (s *Script) mapLen(ksort, dom string) (term string, facts []string) {
+	fn := q("maplen:" + ksort)
+	wit := q("mapwit:" + ksort)
+	s.declare(fn, fmt.Sprintf("(declare-fun %s ((Array %s Bool)) Int)", fn, ksort))
+	s.declare(wit, fmt.Sprintf("(declare-fun %s ((Array %s Bool)) %s)", wit, ksort, ksort))
+	term = fmt.Sprintf("(%s %s)", fn, dom)
+	facts = []string{
+		fmt.Sprintf("(>= %s 0)", term),
+		fmt.Sprintf("(=> (> %s 0) (select %s (%s %s)))", term, dom, wit, dom),
+		fmt.Sprintf("(forall ((mk! %s)) (! (=> (select %s mk!) (> %s 0)) :pattern ((select %s mk!))))", ksort, dom, term, dom),
+	}
+	return
+}
+
+// mapLenStore relates the cardinalities of a domain before and after setting key k to present/absent.
+func (s *Script) mapLenStore(ksort, oldDom, newDom, k string, present bool) []string {
+	fn := q("maplen:" + ksort)
+	wit := q("mapwit:" + ksort)
+	s.declare(fn, fmt.Sprintf("(declare-fun %s ((Array %s Bool)) Int)", fn, ksort))
+	s.declare(wit, fmt.Sprintf("(declare-fun %s ((Array %s Bool)) %s)", wit, ksort, ksort))
+	if present {
+		return []string{fmt.Sprintf("(= (%s %s) (+ (%s %s) (ite (select %s %s) 0 1)))", fn, newDom, fn, oldDom, oldDom, k), fmt.Sprintf("(>= (%s %s) 0)", fn, oldDom)}
+	}
+	return []string{fmt.Sprintf("(= (%s %s) (- (%s %s) (ite (select %s %s) 1 0)))", fn, newDom, fn, oldDom, oldDom, k), fmt.Sprintf("(>= (%s %s) 0)", fn, newDom)}
 }
